@@ -230,6 +230,9 @@ func TestVerifC13CrashPoints(t *testing.T) {
 		}
 		for _, s := range vc13Slots {
 			r2.S[s.name] = k.Scripts[s.name]
+			if r2.S[s.name].Kind == "" {
+				r2.S[s.name] = vc13Script{Kind: vc13OKNew, Fill: 2}
+			}
 		}
 		seq.Rounds = []vc13Round{r1, r2}
 
